@@ -236,8 +236,15 @@ class ClassicallyControlledOperation(raw_types.Operation):
             raise ValueError(
                 'QASM 2.0 does not support multiple conditions. Consider exporting with QASM 3.0.'
             )
-        subop_qasm = protocols.qasm(self._sub_operation, args=args)
+        subop_qasm = protocols.qasm(self._sub_operation, args=args, default=None)
+        if subop_qasm is None:
+            # Let the exporter decompose this operation (the controls are kept by `_decompose_`).
+            return NotImplemented
         if not self._conditions:
             return subop_qasm
         condition_qasm = " && ".join(protocols.qasm(c, args=args) for c in self._conditions)
-        return f'if ({condition_qasm}) {subop_qasm}'
+        # An `if` guards a single statement, so every statement of the sub-operation needs its own.
+        return ''.join(
+            line if not line.strip() or line.lstrip().startswith('//') else f'if ({condition_qasm}) {line}'
+            for line in subop_qasm.splitlines(keepends=True)
+        )
